@@ -358,7 +358,9 @@ def sampler_slots(mod, session):
         envs = _envelopes(mod)
         e = envs[v % len(envs)]
         w = v >> 4
-        kind = w % (9 if CUR_LAYOUT >= 2 else 6)
+        kind = w % (11 if CUR_LAYOUT >= 2 else 6)
+        if kind > 8:
+            kind = 8  # joint edits of several envelopes: three in eleven
         w >>= 3 if CUR_LAYOUT < 2 else 4
         lo, hi = e.range
         if kind == 8:
